@@ -148,11 +148,13 @@ theorem compact_nodeProp (c : Cfg) (hflag : c.rootAfterInserts = true) (s : Engi
     rw [this]
   | false =>
     obtain ⟨h1, _, _, _⟩ := compact_fields c s he
-    have hs := compact_store c s he
+    have hs := compact_store_lookup c s he (.node n k)
     unfold Engine.nodeProp
-    rw [visibleStore_ok (hroot.compact c hflag), visibleStore_ok hroot, h1, hs, npropRuns_noDel n k s.runs hdel]
+    rw [visibleStore_ok (hroot.compact c hflag), visibleStore_ok hroot, h1, npropRuns_noDel n k s.runs hdel]
+    unfold Store.get
+    rw [hs]
     unfold sunkOf
-    simp only [npropRuns, Store.get, List.lookup_append, lookup_map_node, lookup_map_node_edge,
+    simp only [npropRuns, List.lookup_append, lookup_map_node, lookup_map_node_edge,
       sinkProps_lookup, Option.or_none]
     cases firstRun (·.nprops) (n, k) s.runs <;> simp
 
@@ -166,11 +168,13 @@ theorem compact_edgeProp (c : Cfg) (hflag : c.rootAfterInserts = true) (s : Engi
     rw [this]
   | false =>
     obtain ⟨h1, _, _, _⟩ := compact_fields c s he
-    have hs := compact_store c s he
+    have hs := compact_store_lookup c s he (.edge e k)
     unfold Engine.edgeProp
-    rw [visibleStore_ok (hroot.compact c hflag), visibleStore_ok hroot, h1, hs, epropRuns_noDel e k s.runs hdel]
+    rw [visibleStore_ok (hroot.compact c hflag), visibleStore_ok hroot, h1, epropRuns_noDel e k s.runs hdel]
+    unfold Store.get
+    rw [hs]
     unfold sunkOf
-    simp only [epropRuns, Store.get, List.lookup_append, lookup_map_edge, lookup_map_edge_node,
+    simp only [epropRuns, List.lookup_append, lookup_map_edge, lookup_map_edge_node,
       sinkProps_lookup, Option.none_or]
     cases firstRun (·.eprops) (e, k) s.runs <;> simp
 
